@@ -92,7 +92,7 @@ func CFFamilies(tier string) []*FamilySpec {
 	// added as they are (not closed under reduction: that would multiply the quick corpus by four)
 	lists = append(lists, jumpContextCorpus(tier)...)
 	lists = append(lists, nestedLoopCorpus()...)
-	fams := []*FamilySpec{genFamily("CF", gen.CFAll, lists), HandFamily("pool", "pool.go.txt"), yexprFamily(tier)}
+	fams := []*FamilySpec{genFamily("CF", gen.CFAll, lists), HandFamily("pool", "pool.go.txt"), yexprFamily(tier), condFamily(tier)}
 	return append(fams, ExampleFamilies()...)
 }
 
@@ -297,6 +297,27 @@ func jumpContextCorpus(tier string) []gen.List {
 				for _, b := range ifs {
 					add(loop, gen.List{mk(a, gen.List{mk(b, gen.List{{K: j}})}), y})
 					add(loop, gen.List{mk(b, gen.List{mk(a, gen.List{y, {K: j}})}), y})
+					// the jump sits inside the clause's first yielding statement: after its yield, or in
+					// its other branch with more statements of the clause following
+					add(loop, gen.List{mk(a, gen.List{mk(b, gen.List{y, {K: j}})}), y})
+					add(loop, gen.List{mk(a, gen.List{mk(b, gen.List{y, {K: j}}), e}), y})
+					add(loop, gen.List{mk(a, gen.List{{K: "IfElse", Ch: [][]*gen.Stmt{{y}, {{K: j}}}}, y}), y})
+					add(loop, gen.List{mk(a, gen.List{{K: "Block", Ch: [][]*gen.Stmt{{y, mk(b, gen.List{{K: j}})}}}}), y})
+				}
+			}
+		}
+	}
+	// the same without an enclosing loop: an escaping break would end the generator
+	for _, a := range sw {
+		for _, b := range ifs {
+			br := &gen.Stmt{K: "Br"}
+			for _, l := range []gen.List{
+				{mk(a, gen.List{mk(b, gen.List{y, br})}), y},
+				{mk(a, gen.List{{K: "IfElse", Ch: [][]*gen.Stmt{{y}, {br}}}, y}), y},
+				{mk(a, gen.List{{K: "Block", Ch: [][]*gen.Stmt{{y, mk(b, gen.List{br})}}}}), y},
+			} {
+				if gen.CFAll.WellFormed(l) {
+					out = append(out, l)
 				}
 			}
 		}
